@@ -50,6 +50,8 @@ pub struct SchedConfig {
     /// (thread, from_step, to_step): the thread is not scheduled in that window unless
     /// nobody else can run.
     pub starve: Option<(usize, usize, usize)>,
+    /// open the window only once the thread holds the deques lock (see ops::SchedSpec)
+    pub starve_in_sync: bool,
 }
 
 struct State {
@@ -69,6 +71,7 @@ struct State {
     budget: usize,
     fair_after: usize,
     starve: Option<(usize, usize, usize)>,
+    starve_in_sync: bool,
     progress_epoch: u64,
     abort: Option<Abort>,
     trace: Fnv,
@@ -125,6 +128,7 @@ impl Sched {
                 budget: cfg.budget,
                 fair_after: cfg.fair_after,
                 starve: cfg.starve,
+                starve_in_sync: cfg.starve_in_sync,
                 progress_epoch: 1,
                 abort: None,
                 trace: Fnv::default(),
@@ -162,8 +166,17 @@ impl Sched {
             return None;
         }
         // starvation fault
+        if st.starve_in_sync {
+            if let Some((t, a, b)) = st.starve {
+                if st.steps >= a && st.lock_owner.get("deques") == Some(&t) {
+                    // the window opens now
+                    st.starve = Some((t, st.steps, st.steps + (b - a)));
+                    st.starve_in_sync = false;
+                }
+            }
+        }
         if let Some((t, a, b)) = st.starve {
-            if st.steps >= a && st.steps < b && st.steps < st.fair_after && el.len() > 1 {
+            if !st.starve_in_sync && st.steps >= a && st.steps < b && st.steps < st.fair_after && el.len() > 1 {
                 if el.contains(&t) {
                     st.starved_steps += 1;
                 }
